@@ -23,11 +23,14 @@ KANI_QUICK = ['unchanged_returns_exactly_the_loader_bytes', 'changed_returns_not
 KANI_THOROUGH = KANI_QUICK + ['only_utf8_bom_len4', 'only_utf8_bom_len5', 'only_utf8_bom_len6', 'unchanged_len8']
 
 def cubes(tier, has_fc):
-    return [{'part': 'size'}, {'part': 'charset'}, {'part': 'kani', 'engine': 'kani', 'harnesses': KANI_QUICK if tier == 'quick' else KANI_THOROUGH}]
+    return [{'part': 'size'}, {'part': 'charset'}, {'part': 'parse-forwarding'}, {'part': 'kani', 'engine': 'kani', 'harnesses': KANI_QUICK if tier == 'quick' else KANI_THOROUGH}]
 def cube_name(c): return c['part']
 
 def build(mir, cube):
     from ..ops import ev
+    if cube['part'] == 'parse-forwarding':
+        from . import pmsi
+        return pmsi.queries(pmsi.build(mir, cube), 'forwarding')
     sym = Sym()
     eng = Engine(mir, usize_bits=64, unroll=4)
     eng.cfg['N'] = 1
@@ -100,3 +103,7 @@ def run_cube_custom(mir, cube, tier, replay_dir):
             else: rec['inconclusive'].append(f"{r['harness']}: Kani reports a failure that concrete playback does not reproduce natively: {r['detail'][:400]} {log[-400:]}")
     rec['wall_s'] = round(time.time() - t0, 1)
     return rec
+
+def differential(mir, seed, count):
+    from . import pmsi
+    return pmsi.differential(mir, seed, count)
